@@ -5,5 +5,7 @@ package simrt
 // RaceEnabled reports whether the binary was built with -race.
 const RaceEnabled = false
 
-func raceDisable() {}
-func raceEnable()  {}
+func raceDisable()       {}
+func raceEnable()        {}
+func raceReleaseObj(any) {}
+func raceAcquireObj(any) {}
